@@ -29,7 +29,7 @@ func init() {
 		{"credential helpers: an injected HelperRunner with scripted behaviours", "map iteration order: seeded permutation through the rewritten range statements"}}
 	core.Rules["C19"] = "one evaluation = one generated config document (host keys, http/https URL keys with paths, colliding keys; username/password, base64 auth incl. malformed and NUL-padded, identitytoken, registrytoken; credsStore; credHelpers) with scripted helper behaviours, decoded 8 times under different seeded map iteration orders and queried in different orders; distinct = distinct (key shapes, field shapes, store/helper shape, helper behaviours, outcome) tuple; non-trivial = the document decoded or was rejected consistently"
 	core.Assumptions["C19"] = []string{"an entry that sets both identitytoken and username is reported as ambiguous by the implementation; the statement is silent, so only its order-independence is checked"}
-	register(&core.Scenario{Name: "c19-config-lookup", Property: "C19", Weight: 1, Run: c19})
+	register(&core.Scenario{Name: "c19-config-lookup", Property: "C19", Weight: 8, Run: c19})
 }
 
 type c19Entry struct {
